@@ -56,7 +56,7 @@ MANIFEST = dict(
                 "C07_values_canonical. Tie to /repo: the extracted model, the extracted specification and the real Interpreter run on the same "
                 "generated (system, history) cases on every run."),
     level_note=("Trusted: Coq kernel; hand-written model tied only by differential execution (generator-bounded); expression evaluation relies on "
-                "C06's machine model; counters are unbounded and the word layout of the value store is abstracted in the model. Two baa defects "
-                "that are visible through the simulator are recorded as known findings (shift-left by a multiple of 64 not masked; products wider "
-                "than 128 bits panic)."),
+                "C06's machine model; counters are unbounded and the word layout of the value store is abstracted in the model. One baa defect "
+                "visible through the simulator is a recorded known finding (products wider than 128 bits panic); a second one found by this check "
+                "(shift-left by a non-zero multiple of 64 not masked when the width is not a multiple of 64) was repaired in /repo (42f7f06)."),
 )
